@@ -1,5 +1,6 @@
 """Contracts for the output-path handling of stone/backend.py (C18: containment and manifest mode)."""
 from pyvc.contract import contract, Ret, Raise, Obj, AnyVal, Lit, OneOf, Str
+import os
 import spec.backend as SB
 import stone.backend as sb
 
@@ -24,8 +25,9 @@ def _gen_rel(rng):
     root = rng.choice(['out', 'out/', './out', '/tmp/verif_c18_root', 'a/../out', '.', '/'])
     path = _rand_rel(rng)
     if rng.random() < 0.5:
-        import os
         path = os.path.join(root, path)
+    if rng.random() < 0.12:
+        path = os.path.join(root, _sibling(rng, root))
     return {'output_root': {'k': 'str', 'v': root}, 'output_path': {'k': 'str', 'v': path}}
 
 
@@ -60,9 +62,17 @@ def _gen_backend(rng):
     return root, {'k': 'call', 'fn': 'spec.backend_gen:build_backend', 'args': [root, rng.random() < 0.5]}
 
 
+def _sibling(rng, root):
+    """a path next to the root whose name extends the root's name (string prefix, different component)"""
+    base = os.path.basename(os.path.normpath(root)) or 'root'
+    return '../' + base + rng.choice(['2', 'er.txt', '.bak', '-sibling/z.txt', '2/w.txt'])
+
+
 def _gen_path_under(rng, root):
     p = _rand_rel(rng)
     r = rng.random()
+    if r < 0.12:
+        return os.path.join(root, _sibling(rng, root))
     if r < 0.6:
         return os.path.join(root, p)
     if r < 0.75:
@@ -196,7 +206,8 @@ class output_to_relative_path:
     @staticmethod
     def gen(rng):
         root, b = _gen_backend(rng)
-        return {'self': b, 'relative_path': {'k': 'str', 'v': _rand_rel(rng)}, 'mode': {'k': 'str', 'v': 'wb'}}
+        rel = _sibling(rng, root) if rng.random() < 0.12 else _rand_rel(rng)
+        return {'self': b, 'relative_path': {'k': 'str', 'v': rel}, 'mode': {'k': 'str', 'v': 'wb'}}
 
 
 # ---------------------------------------------------------------- verbatim emission (bounded: string contents are opaque to the VC generator)
